@@ -4,8 +4,8 @@ from .. import common, crules
 
 def check(run):
     r = ["C18-link", "C18-reset", "C18-pair", "C18-idem"]
-    run.rule(r[0], "push_back / remove perform, in each list-shape case (empty, only, first, last, interior), exactly the link updates the list invariant needs", floor=18)
-    run.rule(r[1], "remove / clear reset the removed node's links, so it can be registered again", floor=12)
+    run.rule(r[0], "push_back / remove, interpreted over every list-shape case (empty / one / several; only, first, second, middle, second-to-last, last element), leave the list linked as the invariant requires", floor=30)
+    run.rule(r[1], "remove / clear reset the removed node's links, so it can be registered again", floor=24)
     run.rule(r[2], "every catalog registration made in a constructor has an unconditional removal from the same catalog in the destructor", floor=6)
     run.rule(r[3], "add_function registers a definition once: already registered -> no push; otherwise method set, then pushed", floor=3)
     for nd in ([True] if run.tier == "quick" else [True, False]):
